@@ -13,7 +13,8 @@
    value of a `return` expression), "t<i>(x)" (member i's inline expression applied to x), "g<i>()" (ghost default). *)
 EXTENDS O2OSyntax, TLC
 
-Menu == {"none", "ren", "expr", "renexpr", "at", "var", "astype", "astyperen", "ghostd", "ghostb", "gowned", "gref"}
+Menu == {"none", "ren", "ded", "expr", "renexpr", "at", "var", "astype", "astyperen", "ghostd", "ghostb", "gowned", "gref"}
+\* "ded": a default rename to a member that does not exist, written FIRST, and renames dedicated to each counterpart type (they must win)
 N2S(i) == ToString(i)
 
 EffForm(in) == CASE in.form = "same" -> in.shape
@@ -26,7 +27,7 @@ GhostFor(it, k) == \/ it \in {"ghostd", "ghostb"}
                    \/ it = "gowned" /\ k \in OwnedKinds
                    \/ it = "gref"   /\ k \notin OwnedKinds
 AnyGhost(it)  == it \in {"ghostd", "ghostb", "gowned", "gref"}
-HasName(it)   == it \in {"ren", "renexpr", "astyperen"}
+HasName(it)   == it \in {"ren", "ded", "renexpr", "astyperen"}
 HasAction(it) == it \in {"expr", "renexpr"}
 IsNum(it)     == it \in {"astype", "astyperen"}
 
@@ -63,6 +64,7 @@ WellFormed(in) ==
   /\ in.shape = "tuple" /\ EffForm(in) = "named" => \A i \in DOMAIN in.ms : in.ms[i] \notin {"gowned", "gref"}
   /\ EffForm(in) = "unit" => (\A i \in DOMAIN in.ms : in.ms[i] = "ghostd") /\ in.sg = 0
   /\ EffForm(in) = "tuple" => \A i \in DOMAIN in.ms : in.ms[i] \notin {"gowned", "gref"}   \* keeps positions independent of the kind
+  /\ (\E i \in DOMAIN in.ms : in.ms[i] = "ded") => in.form # "bare"                      \* a dedicated instruction names its type by a path
   /\ (\E i \in DOMAIN in.ms : in.ms[i] \in {"at", "var"}) => FirstMapped(in) # 0 /\ in.ms[FirstMapped(in)] \in {"none", "ren"}
   /\ (\E i \in DOMAIN in.ms : in.ms[i] = "var") <=> in.vars >= 1                          \* a var is declared iff it is used
   /\ in.vars >= 1 => FirstMapped(in) # 0
